@@ -15,6 +15,8 @@
 //	-prop c13   the SCION client with DRKey authentication enabled only (client clause of C13)
 //	-prop c11   the NTS clients' cookie pool along histories of exchanges with unauthenticated
 //	            datagrams in front of / instead of the genuine reply (client clauses of C11; driver drv_c11)
+//	-prop c20   destination of the NTS-protected request for every kind of server / port an
+//	            NTS key exchange may name (client clause of C20)
 package main
 
 import (
@@ -28,7 +30,7 @@ import (
 	"verifharness/lib"
 )
 
-var prop = flag.String("prop", "c03", "c03|c05|c13|c11: which generator streams to run")
+var prop = flag.String("prop", "c03", "c03|c05|c13|c11|c20: which generator streams to run")
 
 // probeMalformedAuth adds responses whose authenticator option data is not 28 bytes long to the
 // SPAO stream (and empty paths of an unregistered type). On by default since the repair dd91497;
@@ -132,6 +134,11 @@ func gen(c *lib.Ctx) {
 		genOrigin(c, "c05origin-ip", false)
 		genOrigin(c, "c05origin-scion", true)
 		genSPAO(c, "c05spao")
+		genAddr(c, "c05addr")
+		genTsWindow(c, "c05tswin")
+		genNTSDest(c, "c20ntsdest")
+	case "c20":
+		genNTSDest(c, "c20ntsdest")
 	case "c13":
 		genSPAO(c, "c13spao")
 	case "c11":
